@@ -142,7 +142,13 @@ func (ev *evaluator) compute(f *frame, in ssa.Instruction, pred *ssa.BasicBlock,
 	case *ssa.Phi:
 		for i, p := range x.Block().Preds {
 			if p == pred {
-				f.env[x] = ev.val(f, x.Edges[i])
+				a := ev.val(f, x.Edges[i])
+				if a == absUnknown {
+					// keep the identity of the chosen operand so that outcomes
+					// (stored or returned values) stay path-precise
+					a = "sym:" + f.syms.Sym(x.Edges[i])
+				}
+				f.env[x] = a
 				return
 			}
 		}
@@ -164,7 +170,7 @@ func (ev *evaluator) compute(f *frame, in ssa.Instruction, pred *ssa.BasicBlock,
 		}
 	case *ssa.BinOp:
 		a, b := ev.val(f, x.X), ev.val(f, x.Y)
-		if a == absUnknown || b == absUnknown {
+		if a == absUnknown || b == absUnknown || strings.HasPrefix(a, "sym:") || strings.HasPrefix(b, "sym:") {
 			return
 		}
 		switch x.Op {
@@ -204,7 +210,9 @@ func (ev *evaluator) compute(f *frame, in ssa.Instruction, pred *ssa.BasicBlock,
 		f.env[x] = ev.val(f, x.X)
 	case *ssa.Convert:
 		a := ev.val(f, x.X)
-		if a != absUnknown {
+		if strings.HasPrefix(a, "sym:") {
+			f.env[x] = "sym:" + typeShort(x.Type()) + "(" + a[4:] + ")"
+		} else if a != absUnknown {
 			if i, _, ok := parseAbsInt(a); ok {
 				c := ssa.NewConst(constant.MakeInt64(i), x.Type())
 				f.env[x] = constStr(c)
@@ -249,7 +257,7 @@ func (ev *evaluator) call(f *frame, x *ssa.Call, out *evalOutcome, depth int) {
 		return
 	}
 	h := x.Common().StaticCallee()
-	if h == nil || h.Blocks == nil || depth <= 0 || !strings.HasPrefix(h.Pkg.Pkg.Path(), modPath) {
+	if h == nil || h.Blocks == nil || depth <= 0 || !inModule(h) {
 		return
 	}
 	for _, p := range ev.spec.NoInline {
